@@ -44,6 +44,8 @@ def contexts(tier):
     if tier == 'quick':
         ctx = [(False, False, False, False), (False, True, True, False), (True, True, True, False), (True, False, True, False)]
     ctx += [(False, False, False, True), (True, True, True, True)]
+    # the strict-KEX marker of the *other* role (and an unknown kex-strict-* name) is just another neighbour
+    ctx += [('other', True, True, False), ('other', False, False, False)]
     return ctx
 
 
@@ -61,7 +63,9 @@ def build_lists(cat, inst, pos, ctx, role):
         lists['enc'].append('aes128-cbc')
     if etm:
         lists['mac'].append('hmac-sha2-256-etm@openssh.com')
-    if marker:
+    if marker == 'other':
+        lists['kex'] += [MARK_C if role == 'server' else MARK_S, 'kex-strict-x-v99@example.org']
+    elif marker:
         lists['kex'].append(MARK_S if role == 'server' else MARK_C)
     base = [n for n in lists[cat] if n != inst]
     if pos == 'alone':
